@@ -78,7 +78,7 @@ CLAIMS = {
          "(known finding). In the other direction profiles built from random arguments of the whole stated range are logged (ordered f32 keys; "
          "recorder-computed error and bound for the clauses that need real arithmetic) and validated by TLC against ProfileNumTrace.tla.",
     note="Trusted: TLC, MotionProfile.tla, ProfileNumTrace.tla, the harness. On arbitrary arguments the tolerance is 8 (velocity) / 16 (position) "
-         "f32 epsilons of max(|x|, v t3, a t3^2); the integral relation is checked there only through continuity and arrival.",
+         "f32 epsilons of max(|x|, v t3, a t3^2); the integral relation is checked there piecewise (between two queried instants of one piece).",
     technique="TLA+ spec model-checked with TLC; spec cases replayed into the implementation and implementation traces validated by TLC"),
  "C01": dict(design_ref="DESIGN.md section 4, C01",
     text="Units.tla transcribes the three implementation tables (which operator forms exist between Quantity, bare Unit, Time and "
